@@ -145,6 +145,12 @@ func (r *runner) runWorld(p *Plan, m *Model, img *Image, path string, chain []ma
 		if im.Admissible == nil {
 			continue // never resolved (timeline stopped before)
 		}
+		if len(r.env.Fatal) >= 6 {
+			// this plan already killed six workers: enough evidence, do not
+			// spend a process death on every remaining image
+			r.res.Stats["images_skipped_after_fatal"]++
+			continue
+		}
 		if im.Sel.Cont == nil {
 			im.Sel.Cont = &Plan{}
 		}
